@@ -14,6 +14,7 @@ let dispatch prop input observed =
   | "C15" -> Schema.run15 input observed
   | "C07" -> Exec.run_c07 input observed
   | "C02" -> Exec.run_c02 input observed
+  | "C12" -> C20.run_c12 input observed
   | "C01" | "C06" | "C08" | "C09" | "C10" | "C11" -> Exec.run prop input observed
   | p -> failwith ("modelrun: unknown property " ^ p)
 
@@ -33,6 +34,7 @@ let () =
                 else if prop = "C13" || prop = "C14" || prop = "C16" then Schema.project observed
                 else if prop = "C17" then Schema.project17 observed
                 else if prop = "C15" then Schema.project15 observed
+                else if prop = "C12" then C20.project_c12 observed
                 else if prop = "C07" then Exec.c07_project_rejected expected (Exec.c07_project (snd (Exec.c07_sections input)) observed) else observed in
               let ok = S.to_string expected = S.to_string observed in
               Printf.printf "%s %s %s %s\n" id (if ok then "ok" else "mismatch") verdict (S.to_string expected);
